@@ -100,6 +100,9 @@ func acceptedWorkload(c *fw.Ctx, scale int, emit emitFn) {
 			"URL /rpc\n  Protocol json-rpc-2.0\n  Method m\n    Params\n      " + obj + "\n    Result\n      " + obj + "\n",
 			"TYPE @un\n  " + obj + "\nGET /t\n  200 @un\n  201 [@un]\n",
 			"GET /p/{id}\n  Path\n    {\n      \"id\": 1\n    }\n  200\n    [\n      " + obj + "\n    ]\n",
+			// ... together with a key given by a user type: that object is converted only while the document is written
+			"TYPE @k\n  \"s\"\nGET /x\n  200\n    { // {additionalProperties: \"" + ap + "\"}\n      @k: 1\n    }\n",
+			"TYPE @k\n  \"s\"\nTYPE @o\n  { // {additionalProperties: \"" + ap + "\"}\n    @k: 1\n  }\nPOST /x\n  Request @o\n  200 [@o]\n",
 		} {
 			emit("unconvertible-schemas", singleJob(fmt.Sprintf("unconv-%d-%d", i, k), []byte("JSIGHT 0.3\n"+d), false))
 		}
